@@ -27,8 +27,9 @@ check("C02",
       "TLC exhausts the UKVFile and Backend models (3 keys incl. a 256-byte one, 2 values, 2-3 handles/collections, "
       "<=3 records, four buffer sizes) against the C02 clauses and the refinement of the insert-only KVMap; every "
       "(state, action) pair of those graphs is then executed on real UKVFile / Collection objects and the observable "
-      "state (public keys/get of every handle + an independent parse of the file bytes) must equal the model's after "
-      "each call.  Direction B: seeded random histories (150-300 calls, 12 keys of 1..256 bytes incl. binary, values of "
+      "state (public keys/get of every handle - read through every equivalent public form: get / [], items(), values(), "
+      "iteration, `in`, len; put / []=; open / `with`; explicit flush() - + an independent parse of the file bytes) must equal "
+      "the model's after each call.  Direction B: seeded random histories (150-300 calls, 12 keys of 1..256 bytes incl. binary, values of "
       "0..70 kB, 3 handles, pickled handles) on real UKVFile objects are validated event by event by TLC against UKVFile.tla "
       "(outcome, key listing, returned value, file size); the same for seeded random histories on several long-lived "
       "Collection objects (read-only / read-write, buffer sizes -1, 0, 6, 300, 100000) against Backend.tla.",
@@ -61,7 +62,12 @@ check("C04",
       "8-16 real processes with random delays and injected failures emit events inside the library lock, ordered by a "
       "flock-protected counter; TLC validates the merged trace against SessionsTrace.tla (exclusion, every session sees "
       "exactly the committed keys, reads return committed values, foreign process gets the lock after each failed session "
-      "and at the end, final content = committed records).",
+      "and at the end, final content = committed records)."
+      "  The handle constructor is part of the model (four steps; deviation TestOutsideLock) and of B (schedules on a library "
+      "that does not exist yet, all constructors racing).  B also contains schedules in which worker processes are killed with "
+      "SIGKILL at random moments or kill themselves in the middle of one of their own write() calls: SessionsTrace explains "
+      "them with a silent Die step per process the harness reports as killed (lock released by the OS, a prefix of the open "
+      "session's puts survives as complete records).",
       "fasteners' fcntl lock trusted; threads sharing a handle / nested sessions in one process outside the claim; schedules "
       "in B are sampled, not exhaustive; bounded model constants in the evidence",
       "TLA+ specs (Sessions, SessionSeq, SessionsTrace) model-checked with TLC incl. liveness; spec->code replay with "
@@ -106,20 +112,23 @@ check("C05",
       "hydrogens added, substituents removed, a substructure translated) are validated event by event by TLC against the same "
       "actions (MolEditTrace).",
       "small molecules only in direction A (bounds in the evidence); self-bonds/parallel bonds not generated; coordinates of library-placed "
-      "hydrogens are not compared; quick tier covers the pair set within a time budget (seeded order)",
+      "hydrogens are not compared; quick tier covers the pair set within a time budget (seeded order, pairs partitioned among "
+      "forked workers: about 90 % / 60 % of the two quick graphs)",
       "TLA+ spec (MolEdit) model-checked with TLC; spec->code replay of the transitions with identity-keyed projection",
       "DESIGN.md 4/C05", modules=("MolEdit", "MCMolEdit", "MolEditTrace"))
 
 check("C06",
-      "TLC exhausts MolHeap.tla (objects of the seven structure classes, copy routes construct / pickle / deepcopy / upcast / "
-      "concatenate / ensemble-from-molecule / conformer view, one or two mutations of any cell kind on either side, <=3 live "
-      "objects) for NoSharedCell, Independent, CopyEqual, ViewWritesThrough.  Every (heap state, action) pair reached within "
-      "the budget is replayed on real objects: a mutation bumps a counter stored in the real cell (attribute dict of object / "
+      "TLC exhausts MolHeap.tla (objects of the seven structure classes, copy routes construct / construct with the source's own "
+      "arrays as explicit arguments / pickle / deepcopy / upcast / concatenate / a | b / join / ensemble-from-molecule / "
+      "conformer view, one or two mutations of any cell kind on either side, <=3 live "
+      "objects) for NoSharedCell, Independent, CopyEqual, ViewWritesThrough.  Every (heap state, action) pair (quick: all 23 k, pairs partitioned among "
+      "forked workers; thorough: within the budget) is replayed on real objects: a mutation bumps a counter stored in the real cell (attribute dict of object / "
       "atom / bond, nested attribute value, label, bond type, coordinate, charge, weight, atom list); after each step the "
       "counters of ALL live objects must equal the model's, a deep snapshot comparison decides `copy equals source` (incl. "
       "charges, attributes, parents, indices) at copy time and `nothing else changed` for every other object at mutation time.",
       "bounded heaps (<=3 objects); first atom / first bond / element [0,0] represent their cell kind, deep snapshots cover "
-      "the rest; copy.copy is not a copy route; join is covered by C12 (inputs untouched)",
+      "the rest; copy.copy is not a copy route; copying from a Substructure selection is not a route (it has no name / charge / "
+      "multiplicity of its own)",
       "TLA+ spec (MolHeap) model-checked with TLC; spec->code replay with counters stored in the real cells + deep snapshots",
       "DESIGN.md 4/C06", modules=("MolHeap", "MCMolHeap"))
 
@@ -132,7 +141,7 @@ check("C13",
       "page translated, page children permuted, ids renumbered incl. into the range of displayed atom numbers, atom records "
       "reordered, compositions and their mirrors) is parsed by the real CDXMLFile through two objects and three look-up "
       "orders; an independent ElementTree walk supplies the abstract drawing; TLC validates each file as a trace (keys, "
-      "every look-up, every repeat, every base/variant relation with signed-volume handedness tokens) against the Cdxml clauses.",
+      "every look-up, every repeat, every base/variant relation with signed-volume handedness tokens) against the Cdxml clauses.  Look-ups are repeated on the same handle with caller edits of the returned molecules in between (hydrogens added, charges / coordinates changed, atoms deleted): every look-up must yield the drawing's content (object identity is counted, not judged).",
       "handedness enters only as signed-volume tokens (1e-3 A^3, threshold 50) whose inversion/preservation the spec demands; "
       "label->fragment accepts group sibling or nearest-above (L1/L2); the atom correspondence is a harness-found witness "
       "verified by the spec; Dash bonds, hapto bonds and atoms bonded to hapto centres are unconstrained; trusted: TLC, Json "
@@ -149,7 +158,7 @@ check("C16",
       "and must equal the edge (count, atoms/bonds prefix, coordinate/charge tokens, placement classes).  The same executions "
       "plus 300/3000 seeded random 3-D molecules (Molecule and Structure, rings, radicals, ions, isolated atoms, axis-aligned "
       "bonds) and all 239 bundled CDXML fragments are validated by TLC as traces of HAdd (full micro-Angstrom coordinates and "
-      "1e-3 e charges before/after, measured distance/cos/finiteness of every new atom).",
+      "1e-3 e charges before/after, measured distance/cos/finiteness of every new atom).  Molecules with a history: TLC-enumerated Build / Query* / Rewire / Query* / AddH / AddH behaviours (neighbour and valence accessors judged by the spec, count-preserving edits) are replayed pair by pair, and 400 / 4000 seeded random public-edit histories are trace-validated.",
       "case table exhaustive within the stated bounds, random part sampled; placement clauses judged by TLC on integers "
       "measured by the harness (tolerances 0.003 A, cos <= -0.03, degenerate below 0.1 A offset -> only 'not towards'); "
       "hapto-bonded centres out of the direction clause; hinted rows limited to neighbours+hint <= 4; order of new atoms/bonds "
@@ -165,7 +174,7 @@ check("C01",
       "0-3 conformers, special floats).  The enumerated Put arguments are built as real objects and stored and re-read in real "
       ".mlib/.clib files (v2 and legacy magic, incl. records placed by an independent legacy encoder and genuine bundled legacy "
       "records).  Those sessions plus seeded generated objects are abstracted into traces that TLC validates against "
-      "LibCodecTrace - the verdict 'reads back as the same object' is MolModel!Same evaluated by TLC.",
+      "LibCodecTrace - the verdict 'reads back as the same object' is MolModel!Same evaluated by TLC.  Sessions include re-reads after the caller edited a returned object, re-reads after the file was rewritten, and objects with parallel bonds (same pair twice, reversed, different type / order / attributes).",
       "bounded pools plus seeded generation; value equality per DESIGN 3.3; float32 tolerance only for coordinates, charges and "
       "weights, f_order and attribute floats exact; trusted: TLC, the abstraction function, the independent v1 codec (verified "
       "byte-for-byte against bundled files), msgpack; record byte layout free",
@@ -198,7 +207,7 @@ check("C07",
       "files) are written, read by loads_mol2 and loads_all_mol2 / ConformerEnsemble.loads_mol2, written and read again; every "
       "recorded step is validated by TLC against Mol2TextTrace, which accepts a step only if name, atom order, elements, "
       "non-empty labels, coordinates (1e-6 A), charges (1e-3 e), bonds with endpoints and expressible types, conformer "
-      "count/order, acceptance of every emitted token, text fixed point and read stability all hold.",
+      "count/order, acceptance of every emitted token, text fixed point and read stability all hold.  History independence: unrelated public-API calls (re-typing already typed atoms with the same tokens, reading and writing other texts) are stuttering steps of the spec and a second read of the same text must equal the first (RereadSame); round trips run in fresh worker processes in shuffled order.",
       "typing exhaustive on model and code; structures exhaustive on the model within the bounds and sampled on the code; scope: "
       "whitespace-free labels, one-line names, finite |x| < 1e5 A, one bond per pair, >=1 conformer; bond endpoints compared as "
       "an unordered pair; '-0.000' equals '0.000'; trusted: TLC, the Json module, the harness's mol2 tokenizer",
@@ -213,7 +222,7 @@ check("C08",
       "CartesianGeometry / Structure / Molecule / ConformerEnsemble through dumps_xyz / dump_xyz and every load / loads / "
       "load_all / loads_all entry point (path, stream, string); the written lines (independent tokenizer), the loaded "
       "micro-Angstrom values, the return shape and the class must equal what TLC computed.  Seeded random geometries (all 118 "
-      "elements), multi-dump streams, files in every unit and the bundled xyz files are recorded and validated by TLC against XyzTextTrace.",
+      "elements), multi-dump streams, files in every unit and the bundled xyz files are recorded and validated by TLC against XyzTextTrace.  Objects carry a length scale (1 or 1000 A) so that every writer class, incl. Conformer views dumped on their own, is exercised with coordinates up to 2e6 A (13-14 characters).",
       "bounded pools (constants in the evidence); |x| <= 2147 A; Bohr compared at 1e-4 A (A) or relative 5e-6 (B); written "
       "precision read off the text; trusted: TLC, harness tokenizer and renderer, Decimal",
       "TLA+ spec (XyzText) model-checked with TLC; spec->code replay of every transition; batched TLC trace validation of "
@@ -243,7 +252,7 @@ check("C14",
       "ConformerEnsemble and Conformer objects.  After each call the three arrays, every row read through held and fresh ens[i], "
       "the yielded conformers, the re-parsed xyz/mol2 text and the v2-codec round trip must equal the model.  Seeded random "
       "histories of 25-40 calls on random ensembles and the bundled pentane ensemble are validated event by event by TLC against "
-      "the same actions with real micro-Angstrom / 1e-3 values.",
+      "the same actions with real micro-Angstrom / 1e-3 values.  Conformer objects obtained earlier are HELD across every later action incl. append / extend (re-allocation) and whole-array assignments; reads and writes through them are judged after every step.",
       "bounded model with constants recorded in the evidence; rotations are signed permutations, scale factors integers, "
       "coordinates multiples of 1/64 A (float32-exact); the charge row of an appended geometry, the weights of rows taken from "
       "another ensemble, extend([]) and adopt-or-refuse for an atom-less ensemble are left free; iterators and held views are not "
@@ -277,7 +286,7 @@ check("C10",
       "catalogue (all line cuts, all byte offsets of the last record, del/dup of every line, every closed-vocabulary token "
       "corrupted, counts +-1, seeded combinations) is given to the real Molecule.loads_all_mol2/xyz under a 5 s limit and the "
       "outcome is validated by TLC against the same contract (declared counts computed by TLC from the damaged text; reference = "
-      "parse of the undamaged text, which must equal the model reader's result).",
+      "parse of the undamaged text, which must equal the model reader's result).  Damage classes also include token-level loss / mid-line truncation and byte-level damage (invalid UTF-8 inside tokens) written to real files, for three consuming classes (Structure, Molecule, ConformerEnsemble) through 16 entry points (path, stream, string; class loaders and ml.load / ml.load_all).",
       "bounded model; files > 400 lines sampled; content compared through a digest of public accessors; free-text fields are not "
       "corrupted; three format-level known findings (known_findings.json); trusted: TLC, harness tokenizer",
       "TLA+ spec model-checked with TLC incl. 9 deviations; fault enumeration; batched TLC trace validation of real reader outcomes",
